@@ -330,7 +330,12 @@ impl ReactCache
         mut cache       : ResMut<ReactCache>,
         mut commands    : Commands,
         entity_reactors : Query<&EntityReactors>,
+        inserted        : Query<(), With<React<C>>>,
     ){
+        // If the insertion failed (e.g. the entity was despawned before the insert was applied), there is nothing
+        // to react to.
+        if !inserted.contains(entity) { return; }
+
         let rtype = EntityReactionType::Insertion(TypeId::of::<C>());
 
         // entity-specific reactors
